@@ -1,5 +1,6 @@
 // C11 (part 1) — strtol, strtoul, strtoll, strtoull, strtoimax, strtoumax, atoi, atol of the bundled
-// libc against glibc's on the same text: value, end pointer offset, ERANGE on clamping.
+// libc against glibc's on the same text: value (incl. clamping to the type limits) and end pointer offset.
+// errno disagreements are counted as information only: the statement does not list errno.
 // Texts sit flush against an inaccessible page (after, then before) so reading past the NUL faults.
 #include "c11_common.hpp"
 #include <climits>
@@ -80,7 +81,7 @@ static const char *classify(const uint8_t *t, size_t len, int base, const Res &r
     return "";
 }
 
-static uint64_t g_calls, g_excluded;
+static uint64_t g_calls, g_excluded, g_erange_missing, g_erange_extra;
 static uint32_t g_seen; // outcome classes seen in this case
 
 static void sigv(int f, const char *kind, const char *cls, const uint8_t *t, size_t len, int base, const char *fmt, ...)
@@ -120,10 +121,11 @@ static void check_text(const uint8_t *t, size_t len, int base, bool with_end = t
             sigv(f, "value", cls, t, len, base, "returned %lld (0x%llx), ISO/glibc: %lld (0x%llx)", (long long)g.v, g.v, (long long)r.v, r.v);
         if (with_end && g.end != r.end)
             sigv(f, "endptr", cls, t, len, base, "*endptr = nptr+%ld, ISO/glibc: nptr+%ld", g.end, r.end);
+        // errno is not among the statement's observables (value, end pointer, clamping): information only
         if (r.erange && !g.erange)
-            sigv(f, "erange_not_set", cls, t, len, base, "clamped to %lld without storing ERANGE in errno", (long long)g.v);
+            g_erange_missing++;
         if (!r.erange && g.erange)
-            sigv(f, "erange_spurious", cls, t, len, base, "stored ERANGE in errno for a representable value %lld", (long long)r.v);
+            g_erange_extra++;
         g_seen |= 1u << ((r.erange ? 1 : 0) + (r.end == 0 ? 2 : 0) + ((long long)r.v < 0 ? 4 : 0));
     }
     if (memcmp(pi, buf, len + 1) != 0 || TI.dirty_outside((const uint8_t *)pi, len + 1) != -1000000)
@@ -167,7 +169,7 @@ static void begin_case()
 {
     TI.init(0xA5);
     TR.init(0xA5);
-    g_calls = g_excluded = 0;
+    g_calls = g_excluded = g_erange_missing = g_erange_extra = 0;
     g_seen = 0;
 }
 static void end_case()
@@ -177,6 +179,10 @@ static void end_case()
         mc::more_cases(g_calls - 1, g_calls - 1);
     if (g_excluded)
         mc::count("ato_calls_excluded_result_unrepresentable_undefined_by_iso", (long)g_excluded);
+    if (g_erange_missing)
+        mc::count("info_clamped_without_ERANGE_where_glibc_sets_it_not_checked", (long)g_erange_missing);
+    if (g_erange_extra)
+        mc::count("info_ERANGE_set_where_glibc_does_not_not_checked", (long)g_erange_extra);
     for (int b = 0; b < 8; b++)
         if (g_seen >> b & 1)
             mc::outcome(mc::fmt("strto:%d", b));
